@@ -43,7 +43,7 @@ def unit_cases(r, tier, res):
     for f in FIXED:
         cases.append(("fixed", [(l, None, None) for l in f]))
     pairs = [(6, 6), (1, 1), (12, 12), (6, 1), (1, 12), (0, 0), (15, 15), (2, 4), (5, 9)]
-    depth = 3
+    depth = 4
     if tier == "thorough":
         pairs = [(a, b) for a in range(16) for b in range(16)]
         depth = 5
@@ -55,7 +55,7 @@ def unit_cases(r, tier, res):
             d = 4   # the all-flags corner explodes; one level less
         for c in L.exhaustive_cases(f1, f2, d):
             cases.append(("exh", c))
-    nrand = 2500 if tier == "quick" else 60000
+    nrand = 6000 if tier == "quick" else 60000
     for _ in range(nrand):
         cases.append(("rand", L.random_case(r)))
     return cases
@@ -153,6 +153,49 @@ class Scenario:
         self.note = "legal"
 
 
+def note_transition(res, ref, e):
+    """input distribution: which expanded transition a legal state event is"""
+    if e[0] != "task":
+        res.dist("e2e-ev:" + e[0])
+        return
+    _, th, v, t, bp = e
+    top = ref.ref.top(th)
+    running = top is not None and ref.ref.phase.get(top) == 'R'
+    if v == "x":
+        b = ref.bodyid(t, bp)
+        k = "X(nested over running)" if running else ("x over paused" if top is not None else "x")
+        if ref.ref.phase.get((t, b)) == 'D':
+            k += " resurrect"
+        if ref.ref.flags[t] & L.PAR:
+            k += " parallel"
+    elif v == "e":
+        l = ref.ref.stack[th]
+        below = l[1] if len(l) > 1 else None
+        k = "E(back to running)" if below is not None and ref.ref.phase.get(below) == 'R' else ("e to paused" if below else "e")
+    else:
+        k = v
+    res.dist("e2e-tr:" + k)
+
+
+def fixed_scenarios(tabs):
+    """Subsystem stack capacity: 511 pushes leave room for the running-body push, 512 do not."""
+    out = []
+    tab = tabs["nosv"]
+    pairs = ss_pairs(tab, 4)
+    pu, po, val = pairs[0]
+    for n in (511, 512):
+        sc = Scenario()
+        sc.model = "V"
+        sc.note = "ss-depth-%d" % n
+        sc.procs = [dict(pid=10, appid=1, rank=None, threads=[100], labels={1: b"deep"})]
+        sc.events = [(10, ("type", 100, 1, b"deep")), (10, ("create", 100, "c", 1, 1))]
+        sc.events += [(10, ("sspush", 100, val, pu))] * n
+        sc.events += [(10, ("task", 100, "x", 1, 0)), (10, ("task", 100, "e", 1, 0))]
+        sc.events += [(10, ("sspop", 100, val, po))] * n
+        out.append(sc)
+    return out
+
+
 def gen_scenario(r, tabs, res):
     sc = Scenario()
     sc.model = r.choice(["V", "V", "6"])
@@ -234,9 +277,19 @@ def gen_scenario(r, tabs, res):
             continue    # the reference state is not advanced: the emulator stops here
         if not legal:
             continue
-        tl = [e for e in legal if e[0] == "task"]
-        e = r.choice(tl if tl and r.random() < 0.75 else legal)
+        top = ref.ref.top(th)
+        toprun = top is not None and ref.ref.phase.get(top) == 'R'
+        sstop = ref.ss.get(th, [None])[0] if ref.ss.get(th) else None
+
+        def weight(e):
+            if e[0] == "task":
+                return {"x": 6.0 if toprun else 3.0, "e": 2.0, "p": 1.2, "r": 2.5}[e[2]]
+            if e[0] == "sspush":
+                return 2.5 if (toprun and sstop == st_body and not ss_dup) else 0.5
+            return 1.0
+        e = r.choices(legal, weights=[weight(x) for x in legal])[0]
         sc.events.append((pr["pid"], e))
+        note_transition(res, ref, e)
         ref.apply(e[:5] if e[0] == "task" else e[:3])
     # drain (most of the time): unwind every thread's subsystem stack
     if r.random() < 0.9:
@@ -262,6 +315,7 @@ def gen_scenario(r, tabs, res):
                     if not ref.legal(e[:5] if e[0] == "task" else e[:3]):
                         break
                     sc.events.append((pr["pid"], e))
+                    note_transition(res, ref, e)
                     ref.apply(e[:5] if e[0] == "task" else e[:3])
     else:
         if sc.note == "legal":
@@ -360,8 +414,8 @@ def e2e_one(args):
 
 
 def check_e2e(res, prep, r, tier, tabs, replay_sc=None):
-    n = 350 if tier == "quick" else 6000
-    scs = [gen_scenario(r, tabs, res) for _ in range(n)] if replay_sc is None else [replay_sc]
+    n = 1000 if tier == "quick" else 8000
+    scs = (fixed_scenarios(tabs) + [gen_scenario(r, tabs, res) for _ in range(n)]) if replay_sc is None else [replay_sc]
     # model side: one driver run for all scenarios
     lines = []
     spans = []
